@@ -53,7 +53,9 @@ XStar == TLCEval([i \in 1..N |-> XStarI(i)])
 ZStar == TLCEval([i \in 1..N |-> ZStarI(i)])
 UStar == TLCEval([i \in 1..N |-> UStarI(i)])
 \* rho ||u - u*||^2 + rho b^2 ||z - z*||^2  (Boyd et al. 2011, section 3.3.1 / appendix A, scaled form)
-V(zz, uu) == RMul(inst.rho, RSum(TLCEval([i \in 1..N |-> RAdd(RSq(RSub(uu[i], UStarI(i))), RMul(RSq(inst.b), RSq(RSub(zz[i], ZStarI(i)))))]), N))
+\* (the instances are separable, so the function is non-increasing per component; checking it per component keeps the
+\* exact rationals small)
+VI(i, zz, uu) == RMul(inst.rho, RAdd(RSq(RSub(uu[i], UStarI(i))), RMul(RSq(inst.b), RSq(RSub(zz[i], ZStarI(i))))))
 Resid(xx, zz) == TLCEval([i \in 1..N |-> RSub(RAdd(RMul(inst.a, xx[i]), RMul(inst.b, zz[i])), inst.c[i])])
 
 \* ---------------------------------------------------------------- algorithm layer
@@ -76,7 +78,7 @@ FixedPointIsSolution == (pc = "x" /\ FullStep = <<x, z, u>>) => (x = XStar /\ z 
 \* ... and the solution (with its multiplier) is left unchanged
 SolutionIsFixed == (pc = "x" /\ x = XStar /\ z = ZStar /\ u = UStar) => FullStep = <<x, z, u>>
 \* the Lyapunov function of the convergence proof never increases over a whole update
-LyapunovNonIncreasing == pc = "x" => RLe(V(FullStep[2], FullStep[3]), V(z, u))
+LyapunovNonIncreasing == pc = "x" => \A i \in 1..N : RLe(VI(i, FullStep[2], FullStep[3]), VI(i, z, u))
 \* the dual variable accumulates exactly the constraint residuals
 DualIsResidualSum == [][pc = "u" => u' = TLCEval([i \in 1..N |-> RAdd(u[i], Resid(x, z)[i])])]_vars
 CounterByOne == [][iter' = iter + 1 \/ iter' = iter]_vars
